@@ -12,7 +12,7 @@ let hex_of_bytes (l : n list) : string =
   List.iter (fun x -> Buffer.add_string b (Printf.sprintf "%02x" (int_of_n x))) l;
   Buffer.contents b
 
-let table : (stmt * stmt) array Lazy.t = lazy (Array.of_list (List.map snd block_table))
+let table : (int, stmt * stmt) Hashtbl.t Lazy.t = lazy (let h = Hashtbl.create 512 in List.iter (fun (i, b) -> Hashtbl.replace h (int_of_n i) b) block_table; h)
 
 let parse_ver (s : string) : version =
   match String.split_on_char ',' s with
@@ -28,7 +28,7 @@ let run_case (c : case) : string =
   match c.op with
   | "blk" ->
     let tid = get_int c "tid" in
-    let (init, prog) = (Lazy.force table).(tid) in
+    let (init, prog) = Hashtbl.find (Lazy.force table) tid in
     let v = parse_ver (get c "ver") in
     let input = bytes_of_hex (get c "bytes") in
     let st0 = (match run Wr v hs_empty init (empty_state input) with Ok s -> { s with out = []; trace = [] } | _ -> empty_state input) in
@@ -52,7 +52,7 @@ let run_case (c : case) : string =
   | "trunc" ->
     (* parse a prefix: only faults matter *)
     let tid = get_int c "tid" in
-    let (init, prog) = (Lazy.force table).(tid) in
+    let (init, prog) = Hashtbl.find (Lazy.force table) tid in
     let v = parse_ver (get c "ver") in
     let input = bytes_of_hex (get c "bytes") in
     let st0 = (match run Wr v hs_empty init (empty_state input) with Ok s -> { s with out = []; trace = [] } | _ -> empty_state input) in
